@@ -124,6 +124,8 @@ type Exprer struct {
 	memo  map[ssa.Value]*Expr
 	busy  map[ssa.Value]bool
 	depth int
+	// selfAlloc: while rendering the initialising call of a cell, arguments that are the cell itself print as "_"
+	selfAlloc *ssa.Alloc
 }
 
 var exprers = map[*ssa.Function]*Exprer{}
@@ -147,9 +149,27 @@ func mk(op, name string, v ssa.Value, args ...*Expr) *Expr {
 
 const maxDepth = 40
 
+func stripConv(v ssa.Value) ssa.Value {
+	for {
+		switch t := v.(type) {
+		case *ssa.MakeInterface:
+			v = t.X
+		case *ssa.ChangeType:
+			v = t.X
+		case *ssa.ChangeInterface:
+			v = t.X
+		default:
+			return v
+		}
+	}
+}
+
 func (x *Exprer) E(v ssa.Value) *Expr {
 	if v == nil {
 		return mk("unknown", "<nil-value>", nil)
+	}
+	if x.selfAlloc != nil && stripConv(v) == ssa.Value(x.selfAlloc) {
+		return mk("self", "_", v)
 	}
 	if e, ok := x.memo[v]; ok {
 		return e
@@ -524,7 +544,9 @@ func (x *Exprer) cell(a *ssa.Alloc) *Expr {
 		first := initCalls[0]
 		var ce *Expr
 		if ci, ok := first.(ssa.CallInstruction); ok {
+			x.selfAlloc = a
 			ce = x.callExpr(ci.Common(), nil)
+			x.selfAlloc = nil
 		}
 		return mk("cell", tname, a, ce)
 	}
